@@ -1,10 +1,13 @@
 (* C10 - sparse sensor weights reproduce the full-state discriminant.  Model: Class/Coef.v.
    The two solvers (sklearn OrthogonalMatchingPursuit, MultiTaskLasso) are oracles; what is proved is pysensors' glue
    (orientation, shapes) and the soundness of the contract checker run on every observed result.  The optimality of
-   MultiTaskLasso's result is NOT proved (partial): it is decided by an objective-gap comparison in the harness. *)
+   MultiTaskLasso is an oracle too, but its result is CERTIFIED per case: weak duality for the group-lasso objective is
+   proved over the reals (Class/Dual.v) and the executable certificate checker over exact rationals (Class/DualCheck.v)
+   is sound for it, so every accepted output minimises the objective up to the stated gap among ALL real matrices. *)
 From Coq Require Import List Arith QArith Qcanon.
 Import ListNotations.
-From PS Require Import LA.Sums LA.Gram Basis.Basis Class.Coef Class.CoefProofs.
+From Coq Require Import Reals.
+From PS Require Import LA.Sums LA.Gram LA.SqrtCmpProofs Basis.Basis Class.Coef Class.CoefProofs Class.Dual Class.DualCheck.
 Close Scope Qc_scope.
 Open Scope nat_scope.
 
@@ -21,3 +24,34 @@ Theorem C10_binary_contract_checker_sound_partial : forall tol r n psi s w b, ch
   nonzeros s <= r /\ length s = n.
 Proof. exact check_affine_fit_sound. Qed.
 Print Assumptions C10_binary_contract_checker_sound_partial.
+
+(* ---- multiclass clause.  Objective (the one MultiTaskLasso minimises, intercept included):
+        f(S, b) = 1/(2r) sum_{i<r,c<C} (W_ic - (Psi S)_ic - b_c)^2 + alpha sum_{j<n} sqrt (sum_c S_jc^2).
+   Weak duality: every dual-feasible theta bounds f from below, for all real S, b. *)
+Theorem C10_group_lasso_weak_duality : forall r n C Psi W alpha, 0 < r -> (0 <= alpha)%R ->
+  forall theta, feasible r n C Psi alpha theta -> forall S b, (dual r C W theta <= objective r n C Psi W alpha S b)%R.
+Proof. exact weak_duality. Qed.
+Print Assumptions C10_group_lasso_weak_duality.
+
+(* The certificate checker evaluated on every observed multiclass result (exact rational values of the floats: Psi^-1,
+   the classifier's weights W, the returned sensor weights S, an intercept b, a dual point theta, rational upper bounds
+   u_j of the row norms): if it accepts, the returned weights minimise the objective up to [gap] among all real S', b'. *)
+Theorem C10_multiclass_certificate_sound : forall r n C Psi W S theta b u alpha gap,
+  check_dual r n C Psi W S theta b u alpha gap = true ->
+  let PsiR := fun i j => SqrtCmpProofs.r (Psi i j) in let WR := fun i c => SqrtCmpProofs.r (W i c) in
+  let SR := fun j c => SqrtCmpProofs.r (S j c) in let bR := fun c => SqrtCmpProofs.r (b c) in
+  forall S' b', (objective r n C PsiR WR (SqrtCmpProofs.r alpha) SR bR <=
+                 objective r n C PsiR WR (SqrtCmpProofs.r alpha) S' b' + SqrtCmpProofs.r gap)%R.
+Proof. exact check_dual_sound. Qed.
+Print Assumptions C10_multiclass_certificate_sound.
+
+(* non-vacuity: a 2-mode, 3-sensor, 2-class instance whose all-zero weight matrix is certified optimal (alpha large), and
+   the same certificate is rejected when alpha is too small for the dual point *)
+Example C10_certificate_example :
+  let Psi := [[q 1 1; q 0 1; q 1 1]; [q 0 1; q 1 1; q 1 1]] in
+  let W := [[q 1 1; q (-1) 1]; [q (-1) 1; q 1 1]] in
+  let S := [[q 0 1; q 0 1]; [q 0 1; q 0 1]; [q 0 1; q 0 1]] in
+  let theta := [[q 1 2; q (-1) 2]; [q (-1) 2; q 1 2]] in
+  check_dual_lists 2 3 2 Psi W S theta [q 0 1; q 0 1] [q 0 1; q 0 1; q 0 1] (q 1 1) (q 0 1) = true /\
+  check_dual_lists 2 3 2 Psi W S theta [q 0 1; q 0 1] [q 0 1; q 0 1; q 0 1] (q 1 2) (q 0 1) = false.
+Proof. split; vm_compute; reflexivity. Qed.
